@@ -127,8 +127,29 @@ def run_filter(ws: Path, c):
     return dict(whole=one(c["text"]), atoms=[one(t) for t in c["atom_texts"]])
 
 
+def atom_verdicts(ws: Path, c):
+    """each test of the filter on its own: does it build, and what it answers on every job (diagnosis only)"""
+    out = []
+    for text in c.get("atom_texts") or []:
+        try:
+            createFilter(text)
+            exc = None
+        except Exception as e:  # noqa
+            exc = type(e).__name__
+        verdicts = {}
+        for j in c["ws"]["jobs"]:
+            try:
+                info = JobInformation((ws / "jobs" / j["task"] / j["hash"]).resolve(), scriptname(j["task"]))
+                verdicts[f"{j['task']}/{j['hash']}"] = bool(createFilter(text)(info))
+            except Exception:  # noqa
+                verdicts[f"{j['task']}/{j['hash']}"] = None
+        out.append(dict(build_exc=exc, verdicts=verdicts))
+    return out
+
+
 def run_clean(ws: Path, c):
     make_ws(ws, c["ws"])
+    atoms = atom_verdicts(ws, c)
     before, jb = snapshot(ws), jobdirs(ws)
     args = ["jobs", "--workdir", str(ws), "clean"]
     if c["experiment"] is not None:
@@ -141,6 +162,7 @@ def run_clean(ws: Path, c):
     r = CliRunner().invoke(cli, args)
     out = diff(ws, before, jb)
     out["exc"] = excname(r)
+    out["atoms"] = atoms
     return out
 
 
